@@ -28,7 +28,13 @@ RULE = ('random 1-3-D sources (axis lengths 0-12) labelled injectively in C orde
         'every indexer is asked three times (request, self[:], the request again) and its shape / dtype / len() are '
         'read before and after; a case is one (source kind, shape(s), dtype(s), stage 1, transforms, stage 2, API form); '
         'values, shape AND dtype of every answer are compared; non-trivial when the implementation returns at least '
-        'one element through a non-full selection or exercises the rejection clause; distinct by canonical case')
+        'one element through a non-full selection or exercises the rejection clause; distinct by canonical case'
+        ' Histories (round 7): one LazyIndexer on an ndarray / h5py source answers index, 1-4 further requests, index again; '
+        'index arrays are the caller\'s own ndarrays and every answer is overwritten by the caller; after every read the answer '
+        'is compared with a fresh indexer, self._lookup / the caller\'s arrays / the source with their snapshots, the recorded '
+        'dataset[...] requests with the model (wire 55) and with h5py\'s rule; half of the histories start in the hazard zone '
+        '(dense strategy through a view of the lookup or the caller\'s array). h5py differential: every integer in [-8, 8], '
+        'every slice with bounds in [-7, 7] and steps -2..3, some index lists on axis lengths 0-5 (wire 56).')
 ASSUMPTIONS = [
     'boolean masks have the length of their axis (other lengths are outside the model)',
     'first-stage integer keeps its axis with length 1 (LazyIndexer convention self[:].shape); the spec uses the same convention',
@@ -998,7 +1004,7 @@ def read_trace_report(ctx, pool):
         except Exception:
             continue
         total += 1
-        got = [[k[0].start, k[0].stop, k[0].step] for k in log if isinstance(k[0], slice)]
+        got = [[-10**9 if v is None else v for v in (k[0].start, k[0].stop, k[0].step)] for k in log if isinstance(k[0], slice)]
         if o[0] == 2 and [list(map(int, s)) for s in o[1]] == [list(map(int, g)) for g in got]:
             agree += 1
         if o[0] == 2 and len(o[1]) == 1 and len(got) == 1 and i2[0] in 'lm':
@@ -1009,6 +1015,237 @@ def read_trace_report(ctx, pool):
     ctx.extra['read_traces_agree'] = agree
     ctx.extra['read_plans_single_slice'] = dense
     ctx.extra['read_plans_multi_segment'] = sparse
+
+# ----------------------------------------------------------------------------- histories, memory, requests (round 7)
+
+
+def norm_request(key):
+    """one dataset[...] request as logged by Recorder -> [['i', z] | ['s', a, b, c] | ['l', [...]], ...]"""
+    items = key if isinstance(key, tuple) else (key,)
+    out = []
+    for k in items:
+        if isinstance(k, slice):
+            out.append(['s'] + [None if v is None else int(v) for v in (k.start, k.stop, k.step)])
+        elif np.isscalar(k):
+            out.append(['i', int(k)])
+        else:
+            out.append(['l', [int(v) for v in np.asarray(k).ravel().tolist()]])
+    return out
+
+
+def h5_request_ok(shape, req):
+    """h5py's rule for one request, written independently of the Coq model (checked against h5py by h5_differential)"""
+    if len(req) != len(shape) or sum(1 for it in req if it[0] == 'l') > 1:
+        return False
+    for n, it in zip(shape, req):
+        if it[0] == 'i' and not -n <= it[1] < n:
+            return False
+        if it[0] == 's' and it[3] is not None and it[3] < 1:
+            return False
+        if it[0] == 'l' and (any(b <= a for a, b in zip(it[1], it[1][1:])) or any(not 0 <= v < n for v in it[1])):
+            return False
+    return True
+
+
+def model_request(r):
+    return ['i', r[1]] if r[0] == 0 else ['s', r[1], r[2], r[3]] if r[0] == 1 else ['l', list(r[1])]
+
+
+def gen_history(rng):
+    c = gen_lazy(rng, 0.1 if rng.random() < 0.2 else 0.0)
+    c.pop('bare', None)
+    nd = len(c['shape'])
+    lens = first_stage_shape(c) or c['shape']
+    if rng.random() < 0.5 and lens and lens[0] >= 4:
+        # the hazard zone: a request that takes the dense strategy through a VIEW of the lookup / the caller's own array
+        c['index'] = [rng.choice([('s', None, None, None), ('s', rng.choice([None, 0, 1]), None, rng.choice([None, 1, 2])),
+                                  ('l', sorted(rng.sample(range(lens[0]), max(2, lens[0] * 2 // 3)))),
+                                  ('l', [0, lens[0] - 1]), ('l', sorted(rng.sample(range(lens[0]), 3)))])] + list(c['index'][1:])
+    c['history'] = [[gen_ix(rng, n, 0.05) for n in lens[:rng.choice([nd, nd, rng.randint(0, nd)])]]
+                    for _ in range(rng.randint(1, 4))]
+    c['scribble'] = rng.random() < 0.7
+    return c
+
+
+def _same(a, b):
+    return type(a) is type(b) and (np.array_equal(a, b) if isinstance(a, np.ndarray) else a == b)
+
+
+def run_history(case, pool):
+    """ONE indexer answers index, history..., index again; arrays are handed in as the caller's own ndarrays and every
+    array handed out is overwritten by the caller.  Returns per request: answer, answer of a FRESH indexer, whether
+    self._lookup / the caller's index arrays / the source changed, the requests sent to the dataset."""
+    from katdal.lazy_indexer import LazyIndexer
+    ts = [py_tr(t, case.get('init')) for t in case['ts']]
+    data = labels(case['shape'], 0, case['dt'])
+
+    def build(log):
+        d = data.copy()
+        src = pool.dataset(d) if case.get('src') == 'h5py' else d
+        return d, src, LazyIndexer(Recorder(src, log), keep=tuple(py_ix(ix, True) for ix in case['keep']), transforms=ts)
+    log = []
+    try:
+        d, src, li = build(log)
+    except Exception as e:
+        return ['err', type(e).__name__ + ':init']
+    look0 = [None if a is None else np.array(a, copy=True) for a in li._lookup]
+    steps = []
+    for k2 in [case['index']] + case['history'] + [case['index']]:
+        mine = [py_ix(ix, True) for ix in k2]
+        saved = [m.copy() if isinstance(m, np.ndarray) else m for m in mine]
+        mark = len(log)
+        try:
+            r = li[tuple(mine)]
+            a = canon(r)
+        except Exception as e:
+            r, a = None, ['err', type(e).__name__]
+        st = dict(index=k2, out=a, requests=[norm_request(k) for k in log[mark:]],
+                  index_kept=all(_same(x, y) for x, y in zip(mine, saved)),
+                  lookup_kept=len(li._lookup) == len(look0) and all(
+                      (x is None and y is None) or (x is not None and y is not None and np.array_equal(x, y))
+                      for x, y in zip(li._lookup, look0)))
+        if case.get('scribble') and isinstance(r, np.ndarray) and r.size:
+            try:
+                r[...] = np.zeros((), r.dtype)
+            except ValueError:
+                pass
+        st['source_kept'] = bool(np.array_equal(np.asarray(src[...]), data))
+        try:
+            st['fresh'] = canon(build([])[2][tuple(py_ix(ix, True) for ix in k2)])
+        except Exception as e:
+            st['fresh'] = ['err', type(e).__name__]
+        steps.append(st)
+    return steps
+
+
+def judge_history(ctx, case, steps, mreq):
+    """mreq: per request the output of wire 55 (None without a model)"""
+    ctx.count('history_len=%d' % (len(case['history']) + 2))
+    ctx.count('history_src=' + case.get('src', 'numpy'))
+    if isinstance(steps, list) and steps and steps[0] == 'err':
+        ctx.count('history=init_raises')
+        return
+    sb = scalar_bytes(case)
+    neg = lambda k2: any(ix[0] == 's' and (ix[3] or 1) < 0 for ix in k2)
+    for n, st in enumerate(steps):
+        out, fresh = (nowidth(st['out']), nowidth(st['fresh'])) if sb else (st['out'], st['fresh'])
+        where = dict(case, step=n, asked=st['index'])
+        if out != fresh and not (out[0] == 'err' and fresh[0] == 'err'):
+            ctx.disagree('indexer=lazy;what=history;symptom=answer_depends_on_history', where, out, fresh,
+                         'request %d of the history is answered differently by a fresh indexer' % n)
+        for key, sym in (('lookup_kept', 'lookup_changed'), ('index_kept', 'caller_index_changed'),
+                         ('source_kept', 'source_changed')):
+            if not st[key]:
+                ctx.disagree('indexer=lazy;what=history;symptom=' + sym, where, sym, 'unchanged',
+                             'a read changed memory it does not own (%s)' % sym)
+        ctx.count('history_answer=' + out[0])
+        ctx.traces_validated += 1
+        if out[0] != 'ok':
+            continue
+        # requests: only integers and slices; acceptable to h5py unless the user asked for a negative step
+        for rq in st['requests']:
+            ctx.count('request_items=' + ''.join(it[0] for it in rq))
+        ctx.count('requests_per_read=%s' % (len(st['requests']) if len(st['requests']) < 4 else '4+'))
+        if not neg(st['index']) and not all(h5_request_ok(case['shape'], rq) for rq in st['requests']):
+            ctx.disagree('indexer=lazy;what=requests;symptom=not_acceptable_to_h5py', where, st['requests'], None,
+                         'a dataset request is not one h5py accepts (integers in range, slice steps >= 1, no index list)')
+        if mreq is not None and mreq[n] is not None:
+            mo = mreq[n]
+            if mo[0] != 1:
+                # accept / reject agreement of model and implementation is judged by the main stream (malformed masks
+                # of another length, first stages that do not exist); only the requests of modelled reads are compared
+                ctx.count('requests_model_rejects')
+                continue
+            model = [[model_request(it) for it in rq] for rq in mo[1]]
+            if model != st['requests']:
+                ctx.disagree('indexer=lazy;what=tie;requests_differ', where, st['requests'], model,
+                             'the requests sent to the dataset differ from those of the model (Model/LazyHist.v requests)',
+                             kind='tie')
+            elif mo[0] == 1 and not neg(st['index']) and mo[2] != 1:
+                ctx.disagree('indexer=lazy;what=tie;h5_accepts', where, st['requests'], mo,
+                             'the model of h5py refuses a request of an answered read', kind='tie')
+    ctx.note_case(json.dumps(dict(case, what='history'), sort_keys=True, default=list), nontrivial=True, sample=None)
+
+
+def safe_model(ctx, cases):
+    """wires 55 / 56 may be missing from the last good driver that the failing-input search falls back to"""
+    try:
+        outs = ctx.model(cases)
+    except Exception:
+        return None
+    return None if any(o == [-999] for o in outs) else outs
+
+
+def run_histories(ctx, cases, pool):
+    for c in cases:
+        steps = run_history(c, pool)
+        mreq = None
+        if ctx.model_ok and isinstance(steps, list) and steps and steps[0] != 'err':
+            mreq = safe_model(ctx, [[55, [c['shape'], [enc_ix(i) for i in c['keep']], [enc_ix(i) for i in st['index']]]]
+                                    for st in steps])
+        judge_history(ctx, c, steps, mreq)
+        if pool.n > 400:
+            pool.drop()
+            pool.n = 0
+
+
+FIXED_HISTORIES = [
+    # dense strategy through a view of the lookup (first stage list, request [:]), then the same again
+    dict(kind='lazy', src='numpy', shape=[10], keep=[('l', [1, 2, 4, 5, 7, 8])], ts=[], dt=0,
+         index=[('s', None, None, None)], history=[[('i', 0)]], scribble=True),
+    # ... through the caller's own array, no first stage
+    dict(kind='lazy', src='h5py', shape=[10, 3], keep=[], ts=[], dt=0,
+         index=[('l', [1, 2, 4, 5, 7, 8]), ('l', [0, 2])], history=[[('s', None, None, 2)]], scribble=True),
+    # ... through a strided view of a mask lookup, 2-D, both axes dense
+    dict(kind='lazy', src='numpy', shape=[8, 6], keep=[('m', [1, 1, 0, 1, 1, 0, 1, 1]), ('l', [1, 2, 4, 5])], ts=[], dt=1,
+         index=[('s', 1, None, None), ('s', None, None, None)], history=[[('i', -1), ('i', 0)], []], scribble=True),
+    # one chunk, no post-selection: what is handed out must not be a view of the source
+    dict(kind='lazy', src='numpy', shape=[6, 2], keep=[], ts=[], dt=0, index=[('s', 1, 5, None)],
+         history=[[('s', None, None, None)]], scribble=True),
+]
+
+
+def history_stream(ctx, pool):
+    cases = [norm_case(dict(c)) for c in FIXED_HISTORIES]
+    for c, raw in zip(cases, FIXED_HISTORIES):
+        c.update(history=[[tuple(i) for i in h] for h in raw['history']], scribble=raw['scribble'])
+    cases += [gen_history(ctx.rng) for _ in range(ctx.scale(700, 6000))]
+    run_histories(ctx, cases, pool)
+    ctx.extra['histories'] = len(cases)
+
+
+def h5_differential(ctx, pool):
+    """Model/LazyHist.v h5_read (what h5py accepts, what it returns) against the real h5py on every small request item"""
+    items = []
+    for n in range(0, 6):
+        ds = pool.dataset(np.arange(n))
+        its = [['i', z] for z in range(-8, 9)]
+        its += [['s', a, b, c] for a in range(-7, 8) for b in range(-7, 8) for c in (-2, -1, 0, 1, 2, 3)]
+        its += [['l', l] for l in ([], [0], [1, 3], [0, 1, 2], [3, 1], [1, 1], [n], [0, n - 1], [2, 4])]
+        for it in its:
+            key = it[1] if it[0] == 'i' else slice(it[1], it[2], it[3]) if it[0] == 's' else it[1]
+            try:
+                got = [1, [int(v) for v in np.atleast_1d(ds[key]).tolist()]]
+            except Exception:
+                got = [0]
+            items.append((n, it, got))
+    enc = lambda it: [0, it[1]] if it[0] == 'i' else [1, it[1], it[2], it[3]] if it[0] == 's' else [2, list(it[1])]
+    outs = safe_model(ctx, [[56, [n, enc(it)]] for n, it, _ in items])
+    if outs is None:
+        return
+    bad = 0
+    for (n, it, got), o in zip(items, outs):
+        ctx.count('h5_item=%s/%s' % (it[0], 'accepted' if got[0] else 'refused'))
+        if [o[0]] + ([list(o[1])] if o[0] == 1 else []) != got:
+            bad += 1
+            ctx.disagree('what=h5py_model;item=' + it[0], dict(n=n, item=it), got, o,
+                         'Model/LazyHist.v h5_read differs from h5py on one request item', kind='tie')
+        if h5_request_ok([n], [it]) != bool(got[0]):
+            ctx.disagree('what=h5py_rule_of_harness;item=' + it[0], dict(n=n, item=it), got, None,
+                         'the harness\'s own h5py rule differs from h5py', kind='tie')
+    ctx.extra['h5_items_compared'] = len(items)
+    ctx.extra['h5_item_mismatches'] = bad
+
 
 # ----------------------------------------------------------------------------- dtype sweep (every tier)
 
@@ -1210,6 +1447,10 @@ def run(ctx):
                                  'extracted model differs from vm_compute inside Coq', kind='tie')
         if ctx.model_ok:
             read_trace_report(ctx, pool)
+            h5_differential(ctx, pool)
+            pool.drop()
+            pool.n = 0
+        history_stream(ctx, pool)
         ctx.exhaustive = False
     finally:
         pool.close()
@@ -1219,7 +1460,13 @@ def replay(ctx, doc):
     case = doc.get('case') or doc.get('witness')
     pool = H5Pool()
     try:
-        if 'kind' in case:
+        if 'history' in case:
+            c = norm_case(case)
+            c.update(history=[[tuple(i) for i in h] for h in case['history']], scribble=case.get('scribble', True))
+            run_histories(ctx, [c], pool)
+        elif 'item' in case:
+            h5_differential(ctx, pool)
+        elif 'kind' in case:
             run_cases(ctx, [norm_case(case)], pool)
         elif 'slice' in case:
             pyslice_differential(ctx)
